@@ -75,7 +75,7 @@ PROPS = {
     ),
     "C03": dict(
         level="other",
-        bounded=_both(_ops("C03"), _mod("pure")),
+        bounded=_both(_ops("C03"), _mod("pure"), _mod("mcsz3")),
         trusted=TB + ["TB-z3", "TB-time"],
         assumed=["contract of SystemWZ3._rec_inference / get_all_xi_i (Wrec over minimal correction sets) - bounded only", "L3: Wrec = preferred-structure definition"],
         explanation="Engine P proves the z3 back-end's _inference (query translation, optimizer set-up, top index, result plumbing) "
@@ -84,7 +84,7 @@ PROPS = {
     ),
     "C04": dict(
         level="other",
-        bounded=_both(_ops("C04"), _mod("lexbias"), _mod("pure")),
+        bounded=_both(_ops("C04"), _mod("lexbias"), _mod("pure"), _mod("mcsz3")),
         trusted=TB + ["TB-z3", "TB-time"],
         assumed=["contract of LexInfZ3._rec_inference (Lspec) - bounded only", "L4"],
         explanation="Engine P proves LexInfZ3._inference against the ASSUMED contract of the recursion; the recursion (exists/forall over "
@@ -145,7 +145,7 @@ PROPS = {
     ),
     "C11": dict(
         level="other",
-        bounded=_both(_mod("rel", "run_c11"), _mod("pure")),
+        bounded=_both(_mod("rel", "run_c11"), _mod("pure"), _mod("mcsz3")),
         trusted=TB + ["TB-z3", "TB-time", "TB-sat (assumed for every engine name)"],
         assumed=[],
         explanation="Engine P proves the back-end dispatch (create_inference_instance, create_optimizer) and the z3 back-ends' "
@@ -235,7 +235,7 @@ NOT_APPLICABLE = {}
 
 
 # Engine B modules that are finished and reviewed (a module file may exist while still in work)
-READY_MODULES = {"c06", "c10", "c15", "c16", "c17", "c18", "c19", "lexbias", "pure"}
+READY_MODULES = {"c06", "c10", "c13", "c14", "c15", "c16", "c17", "c18", "c19", "c20", "lexbias", "pure", "mcsz3"}
 
 
 def available(pid):
